@@ -15,14 +15,15 @@ def Attempt.num : Attempt → Nat
 
 /-- **Stage of a pass**: how many times the token has been transmitted to the current successor in the
 running pass, read off the FDL state.  `CheckTokenPass(att)`: `att` transmissions are out and the bus
-is being watched.  `PassToken(_, second/third)`: a slot time has expired in silence after transmission
+is being watched.  `PassToken(false, second/third)`: a slot time has expired in silence after transmission
 1 / 2 and the repetition waits for the synchronisation pause (these two states are entered from
 `do_check_token_pass` only).  Every other state — in particular `PassToken(_, first)`, which precedes
-the FIRST transmission to a (new) successor — has stage 0: no pass is being supervised. -/
+the FIRST transmission to a (new) successor, and `PassToken(true, second/third)`, which no handler
+enters — has stage 0: no pass is being supervised. -/
 def sent : FState → Nat
   | .checkTokenPass att => att.num
-  | .passToken _ .second => 1
-  | .passToken _ .third => 2
+  | .passToken false .second => 1
+  | .passToken false .third => 2
   | _ => 0
 
 /-- The token telegram TS → NS as bytes. -/
@@ -31,18 +32,15 @@ def tokenTo (ts ns : Nat) : Bytes := sendToken (UInt8.ofNat ns) (UInt8.ofNat ts)
 theorem sent_le_three (st : FState) : sent st ≤ 3 := by
   cases st with
   | checkTokenPass att => cases att <;> simp [sent, Attempt.num]
-  | passToken g att => cases att <;> simp [sent]
+  | passToken g att => cases g <;> cases att <;> simp [sent]
   | _ => simp [sent]
 
 theorem sent_cases {st : FState} (h : sent st ≠ 0) :
-    (∃ att, st = .checkTokenPass att) ∨ (∃ g, st = .passToken g .second) ∨ (∃ g, st = .passToken g .third) := by
+    (∃ att, st = .checkTokenPass att) ∨ st = .passToken false .second ∨ st = .passToken false .third := by
   cases st with
   | checkTokenPass att => exact .inl ⟨att, rfl⟩
   | passToken g att =>
-    cases att with
-    | first => simp [sent] at h
-    | second => exact .inr (.inl ⟨g, rfl⟩)
-    | third => exact .inr (.inr ⟨g, rfl⟩)
+    cases g <;> cases att <;> simp [sent] at h ⊢
   | _ => simp [sent] at h
 
 /-- One whole poll starting in `PassToken(g, att)`: still waiting for the synchronisation pause; a GAP
@@ -126,8 +124,7 @@ theorem check_poll (s : Station) (apps : Apps) (now : Int) (phy : Bool) (rx : By
 * `removed` — only from `CheckTokenPass(third)` (stage 3) with the slot time expired in silence: NS is
   removed, stage restarts (0: `PassToken(false, first)`, or 1: first transmission to the NEW successor
   in the same poll, or the station is alone and keeps the token);
-* `gap` — never from a reachable state (`PassToken(true, second/third)` is not entered by any handler;
-  kept for totality). -/
+-/
 inductive PassStep (s : Station) (now : Int) (rx : Bytes) (c' : Ctx) : Prop
   | wait (hs : sent c'.s.st = sent s.st) (hr : c'.s.ring = s.ring) (ht : c'.tx = none)
   | retry (hlt : sent s.st < 3)
@@ -142,11 +139,10 @@ inductive PassStep (s : Station) (now : Int) (rx : Bytes) (c' : Ctx) : Prop
          (c'.s.ring = r0.witness s.p.address r0.ns ∧
            (c'.s.st = .useToken ⟨now, none⟩ false ∨ c'.s.st = .checkTokenPass .first) ∧
            c'.tx = some (tokenTo s.p.address r0.ns))))
-  | gap (hg : ∃ att, s.st = .passToken true att) (hs : ∃ a, c'.s.st = .awaitStatus a) (hr : c'.s.ring = s.ring)
 
 theorem pass_step (s : Station) (apps : Apps) (now : Int) (phy : Bool) (rx : Bytes) (c' : Ctx)
     (h : s.poll apps now phy rx = .ok c') (hin : sent s.st ≠ 0) : PassStep s now rx c' := by
-  rcases sent_cases hin with ⟨att, hst⟩ | ⟨g, hst⟩ | ⟨g, hst⟩
+  rcases sent_cases hin with ⟨att, hst⟩ | hst | hst
   · rcases check_poll s apps now phy rx c' h att hst with ⟨h1, h2, h3⟩ | ⟨hex, r0, att', hrs, hpost⟩ |
       ⟨hex, rx', calls, ret, hrx, hne, hev, htx, hs⟩
     · exact .wait (by rw [h1, hst]) h2 h3
@@ -169,16 +165,16 @@ theorem pass_step (s : Station) (apps : Apps) (now : Int) (phy : Bool) (rx : Byt
         exact .removed hst hex ⟨r0, hr0, hpost⟩
     · refine .heard hex ?_ htx ⟨rx', calls, ret, hrx, hne, hev⟩
       rcases hs with ⟨_, _, _, h'⟩ | ⟨_, _, h'⟩ | ⟨_, _, h'⟩ <;> rw [h'] <;> rfl
-  · rcases passTok_poll s apps now phy rx c' h g .second hst with ⟨h1, h2, h3⟩ | ⟨h1, h2, h3⟩ | ⟨h1, h2, h3⟩
+  · rcases passTok_poll s apps now phy rx c' h false .second hst with ⟨h1, h2, h3⟩ | ⟨h1, h2, h3⟩ | ⟨h1, h2, h3⟩
     · exact .wait (by rw [h1, hst]) h2 h3
-    · exact .gap ⟨_, by rw [hst, h1]⟩ h2 h3
+    · cases h1
     · refine .retry (by rw [hst]; simp [sent, Attempt.num]) ?_ h1 h3
       rcases h2 with h2 | h2
       · exact .inr h2
       · exact .inl (by rw [h2, hst]; rfl)
-  · rcases passTok_poll s apps now phy rx c' h g .third hst with ⟨h1, h2, h3⟩ | ⟨h1, h2, h3⟩ | ⟨h1, h2, h3⟩
+  · rcases passTok_poll s apps now phy rx c' h false .third hst with ⟨h1, h2, h3⟩ | ⟨h1, h2, h3⟩ | ⟨h1, h2, h3⟩
     · exact .wait (by rw [h1, hst]) h2 h3
-    · exact .gap ⟨_, by rw [hst, h1]⟩ h2 h3
+    · cases h1
     · refine .retry (by rw [hst]; simp [sent, Attempt.num]) ?_ h1 h3
       rcases h2 with h2 | h2
       · exact .inr h2
@@ -249,8 +245,7 @@ theorem sameRun_step {w w1 : World} {i : PollIn} {tx : Option Bytes}
   have h0 : 0 < sent w.s.st := Nat.pos_of_ne_zero hin
   rw [hs] at hmono ⊢
   refine ⟨hfr, ?_⟩
-  rcases pass_step _ _ _ _ _ _ hc hin with ⟨e1, e2, e3⟩ | ⟨hlt, e1, e2, e3⟩ | ⟨hex, e1, e2, e3⟩ | ⟨hst, hex, r0, hr0, e⟩ |
-    ⟨hg, ⟨a, e1⟩, e2⟩
+  rcases pass_step _ _ _ _ _ _ hc hin with ⟨e1, e2, e3⟩ | ⟨hlt, e1, e2, e3⟩ | ⟨hex, e1, e2, e3⟩ | ⟨hst, hex, r0, hr0, e⟩
   · exact .inl ⟨e3, e1, e2⟩
   · rcases e1 with e1 | e1
     · exact .inr ⟨e3, e1, e2⟩
@@ -259,7 +254,6 @@ theorem sameRun_step {w w1 : World} {i : PollIn} {tx : Option Bytes}
   · exfalso
     rw [hst] at hmono
     rcases e with ⟨e1, -⟩ | ⟨-, e1 | e1, -⟩ <;> rw [e1] at hmono <;> simp [sent, Attempt.num] at hmono
-  · rw [e1] at hmono; change sent w.s.st ≤ 0 at hmono; omega
 
 /-- **`passCount_run`** — the counter invariant over a whole run inside one pass: the stage at the end
 is the stage at the start plus the number of transmissions in the run; every transmission is the token
@@ -295,5 +289,56 @@ theorem passCount_run {w w' : World} {ins : List PollIn} {txs : List (Nat × Byt
 theorem passCount_le {w w' : World} {ins : List PollIn} {txs : List (Nat × Bytes)} (h : SameRun w ins txs w') :
     sent w.s.st + txs.length ≤ 3 := by
   rw [← (passCount_run h).1]; exact sent_le_three _
+
+/-- **How a pass ends**: the poll after which the stage has dropped.  Exactly three ways: a complete
+telegram was heard before the slot time expired (nothing transmitted, no removal); the station found
+itself alone after repeating the token and keeps it (stage < 3, no removal); or the slot time expired
+in silence in `CheckTokenPass(third)` and exactly NS is removed. -/
+inductive PassEnd (s : Station) (now : Int) (rx : Bytes) (s' : Station) (tx : Option Bytes) : Prop
+  | heard (hex : ¬ SlotExpired s now rx) (hs : sent s'.st = 0) (ht : tx = none)
+      (hr : ∃ rx' calls ret, receiveAll rx = .done rx' calls ret ∧ calls ≠ [] ∧ HeardEvo calls s.ring s'.ring)
+  | alone (hlt : sent s.st < 3) (hs : s'.st = .useToken ⟨now, none⟩ false)
+      (hr : s'.ring = s.ring.witness s.p.address s.ring.ns) (ht : tx = some (tokenTo s.p.address s.ring.ns))
+  | removed (hst : s.st = .checkTokenPass .third) (hex : SlotExpired s now rx)
+      (hr : ∃ r0, s.ring.removeStation s.ring.ns = some r0 ∧
+        ((s'.st = .passToken false .first ∧ s'.ring = r0 ∧ tx = none) ∨
+         (s'.ring = r0.witness s.p.address r0.ns ∧
+           (s'.st = .useToken ⟨now, none⟩ false ∨ s'.st = .checkTokenPass .first) ∧
+           tx = some (tokenTo s.p.address r0.ns))))
+
+theorem pass_end {w w1 : World} {i : PollIn} {tx : Option Bytes}
+    (hp : w.pollTx i = some (w1, tx)) (hdrop : sent w1.s.st < sent w.s.st) :
+    PassEnd w.s i.now (w.rx ++ i.arrived) w1.s tx := by
+  obtain ⟨c, hc, hs, rfl⟩ := pollTx_inv hp
+  have hin : sent w.s.st ≠ 0 := by omega
+  rw [hs] at hdrop ⊢
+  rcases pass_step _ _ _ _ _ _ hc hin with ⟨e1, e2, e3⟩ | ⟨hlt, e1, e2, e3⟩ | ⟨hex, e1, e2, e3⟩ | ⟨hst, hex, hr⟩
+  · omega
+  · rcases e1 with e1 | e1
+    · omega
+    · exact .alone hlt e1 e2 e3
+  · exact .heard hex e1 e2 e3
+  · exact .removed hst hex hr
+
+/-- **Maximal run**: every list of polls from a state satisfying the station invariant splits into a
+run inside the pass under supervision (possibly empty) and a rest that is empty (the history ends
+inside the pass), or starts outside any pass, or starts with the poll that ends the pass. No poll
+panics. -/
+theorem sameRun_maximal : ∀ (ins : List PollIn) (w : World), Inv w.s w.apps →
+    ∃ pre post txs w1, ins = pre ++ post ∧ SameRun w pre txs w1 ∧ Inv w1.s w1.apps ∧
+      (post = [] ∨ sent w1.s.st = 0 ∨
+       ∃ i rest w2 tx, post = i :: rest ∧ w1.pollTx i = some (w2, tx) ∧ Inv w2.s w2.apps ∧ sent w2.s.st < sent w1.s.st) := by
+  intro ins
+  induction ins with
+  | nil => intro w hi; exact ⟨[], [], [], w, rfl, .nil w, hi, .inl rfl⟩
+  | cons i rest ih =>
+    intro w hi
+    by_cases hin : sent w.s.st = 0
+    · exact ⟨[], i :: rest, [], w, rfl, .nil w, hi, .inr (.inl hin)⟩
+    · obtain ⟨w1, tx, hp, hi1⟩ := pollTx_total w i hi
+      by_cases hm : sent w.s.st ≤ sent w1.s.st
+      · obtain ⟨pre, post, txs, w2, e, hrun, hi2, hpost⟩ := ih w1 hi1
+        exact ⟨i :: pre, post, _, w2, by rw [e]; rfl, .cons hp hin hm hrun, hi2, hpost⟩
+      · exact ⟨[], i :: rest, [], w, rfl, .nil w, hi, .inr (.inr ⟨i, rest, w1, tx, rfl, hp, hi1, by omega⟩)⟩
 
 end PV
